@@ -805,6 +805,11 @@ def rule_sb_empty(repo, col, which=None):
                                 work.append(v)
             kinds = {classify_emptiness(p) for p in parts} - {None}
             if not kinds:
+                texts = [unparse(p, 400) for p in parts]
+                if any('.sum(' in t for t in texts) and any(
+                        re.search(r'(>|!=)\s*0', t) for t in texts):
+                    kinds = {'sensitive'}
+            if not kinds:
                 col.unknown(rule, TABLE, 'Table.remove_empty', 'predicate',
                             filt[0], 'emptiness test not recognised')
             else:
